@@ -110,7 +110,7 @@ WBClosedForms == WBCase => LET v == WB(c)  k == RSq(c.scale) IN
 
 (* ---------------- KS aggregation --------------------------------------------------------------------- *)
 \* f_i = vm_i / sigma - 1 ; fmax = max f_i ; KS = fmax + (1/rho) Ln( sum Exp( rho (f_i - fmax) ) )
-KSCase == c.kind = "ks"
+KSCase == c.kind \in {"ks", "ksseq"}
 Fs(cc) == [i \in 1 .. Len(cc.vm) |-> RSub(RDiv(cc.vm[i], cc.sigma), ROne)]
 FMax(cc) == LET f == Fs(cc) IN CHOOSE m \in {f[i] : i \in 1 .. Len(f)} : \A i \in 1 .. Len(f) : RLe(f[i], m)
 Args(cc) == LET f == Fs(cc)  m == FMax(cc) IN [i \in 1 .. Len(f) |-> RMul(cc.rho, RSub(f[i], m))]
@@ -132,12 +132,16 @@ TubeCases == {[kind |-> "tube", d |-> d, L |-> L, E |-> R(7), G |-> R(3), rad |-
 WBCases == {[kind |-> "wingbox", d |-> d, L |-> L, E |-> R(7), G |-> R(3), J |-> <<1, 3>>, tsp |-> <<1, 10>>, Aenc |-> <<1, 2>>, Qz |-> <<1, 5>>,
              htop |-> <<1, 4>>, hbot |-> <<1, 5>>, hfront |-> <<1, 2>>, hrear |-> <<2, 5>>, state |-> s, rigid |-> rg, scale |-> sc] :
                 d \in Dirs, L \in {R(2)}, s \in States, rg \in Rigids, sc \in {ROne, R(-3)}}
-KSCases == {[kind |-> "ks", sigma |-> R(200), rho |-> R(100), vm |-> v] :
-                v \in {<<R(100)>>, <<R(100), R(100), R(100)>>, <<R(50), R(400), R(10)>>, <<R(0), R(0)>>, <<R(10000000), R(1), R(9999999)>>, <<R(199), R(200), R(201), R(150)>>}}
+KSVecs == {<<R(100)>>, <<R(100), R(100), R(100)>>, <<R(50), R(400), R(10)>>, <<R(0), R(0)>>, <<R(10000000), R(1), R(9999999)>>, <<R(199), R(200), R(201), R(150)>>,
+           <<R(3), R(2), R(1)>>, <<R(0), R(5000), R(0)>>}
+KSCases == {[kind |-> "ks", sigma |-> R(200), rho |-> R(100), vm |-> v] : v \in KSVecs}
+\* the aggregate is a function of the CURRENT stresses only: the same component instance evaluated at `prev` first (the
+\* critical element somewhere else, the magnitudes decades apart) must give for `vm` exactly what a fresh one gives
+KSSeqCases == UNION {{[kind |-> "ksseq", sigma |-> R(200), rho |-> R(100), vm |-> v, prev |-> p] : p \in {q \in KSVecs : Len(q) = Len(v) /\ q # v}} : v \in KSVecs}
 
 Emit == PrintT(<<"EMIT", ToJson(IF KSCase THEN [case |-> c, f |-> Fs(c), fmax |-> FMax(c), args |-> Args(c)]
                                 ELSE [case |-> c, field |-> Field(c), vm2 |-> IF TubeCase THEN TubeVM2(c) ELSE WB(c),
                                       xl |-> XL(c.d)])>>)
-Init == c \in TubeCases \cup WBCases \cup KSCases
+Init == c \in TubeCases \cup WBCases \cup KSCases \cup KSSeqCases
 Next == UNCHANGED c
 =============================================================================
